@@ -25,14 +25,19 @@ def tuple_space(n, times):
 
 
 def observe(inst):
-    """Everything C18 talks about, read off the real object."""
+    """Everything C18 talks about, read off the real object.  inst["lookup_first"]: the tuple lookups are
+    the first calls on the fresh object (before any size query), so the call order is varied too."""
     p = ac.build(inst)
     snap = ac.snapshot(p)
-    n = p.get_num_variables()
-    vm = [ac.tup_py(v) for v in p.var_mapping]
     times = lookup_times(inst)
     space = tuple_space(len(snap[1]), times)
-    idx = [p.get_var_index(*v) for v in space]
+    if inst.get("lookup_first"):
+        idx = [p.get_var_index(*v) for v in space]
+        n = p.get_num_variables()
+    else:
+        n = p.get_num_variables()
+        idx = [p.get_var_index(*v) for v in space]
+    vm = [ac.tup_py(v) for v in p.var_mapping]
     tups = [p.get_var_tuple_index(k) for k in range(n + 3)]
     tups = [None if v is None else ac.tup_py(v) for v in tups]
     return {"snap": snap, "n": int(n), "vars": vm, "times": times, "space": space, "idx": idx, "tups": tups}
@@ -111,8 +116,10 @@ def run_part(ctx):
     rng = ctx.rng
     n_random = 150 if ctx.quick else 2500
     insts = special_instances()
-    for _ in range(n_random):
-        insts.append(ac.gen_instance(rng))
+    for k in range(n_random):
+        inst = ac.gen_instance(rng)
+        inst["lookup_first"] = (k % 2 == 0)
+        insts.append(inst)
     # a few grids with repeated values: outside the property's quantifier (a grid is a set), modelled
     # literally and compared with the model only
     for _ in range(6 if ctx.quick else 60):
@@ -125,7 +132,7 @@ def run_part(ctx):
     cases, terms = [], []
     dist = {"instances": 0, "unsorted_grid": 0, "repeated_grid_value": 0, "window_end_on_grid": 0,
             "exact_travel_fit": 0, "window_without_grid_point": 0, "zero_travel_arc": 0, "depot_self_arc": 0,
-            "finite_depot_window": 0, "no_variables": 0, "lookups": 0, "admissible_lookups": 0,
+            "finite_depot_window": 0, "no_variables": 0, "lookup_before_size_query": 0, "lookups": 0, "admissible_lookups": 0,
             "by_customers": {}}
     reported = 0
     seen = set()
@@ -159,6 +166,7 @@ def run_part(ctx):
         dist["depot_self_arc"] += any(a[0] == (0, 0) for a in snap[2])
         dist["finite_depot_window"] += snap[1][0][3] != ac.INF
         dist["no_variables"] += obs["n"] == 0
+        dist["lookup_before_size_query"] += bool(inst.get("lookup_first"))
         d = dict(snap[2])
         dist["exact_travel_fit"] += any(v[1] + d[(v[0], v[2])][2] == v[3] for v in obs["vars"])
         dist["lookups"] += len(obs["space"]) + obs["n"] + 3
@@ -194,7 +202,9 @@ def run_part(ctx):
         if not err and not any(idx == canary for idx, _ in mism):
             ctx.tooling_failure("correspondence/arc-canary", "a deliberately wrong case was not flagged by the Coq comparison")
         mism = [(i, t) for i, t in mism if i < canary]
-    for idx, tags in mism[:2]:
+    for idx, tags in mism[:1]:
+        if ctx.has_concrete():
+            break                         # one VIOLATION per breakage: a concrete failing input was reported
         inst, obs = cases[idx]
         msg = oracle(inst, obs)
         if msg:
@@ -214,5 +224,6 @@ def replay_part(ctx, data):
     r = data["replay"]
     inst = r["instance"]
     inst = {"nodes": [tuple(n) for n in inst["nodes"]], "depot": inst["depot"],
-            "arcs": [tuple(a) for a in inst["arcs"]], "grid": inst["grid"]}
+            "arcs": [tuple(a) for a in inst["arcs"]], "grid": inst["grid"],
+            "lookup_first": inst.get("lookup_first", False)}
     print(oracle(inst))
